@@ -1,8 +1,159 @@
+//! C09 — the law checkers of `lattices::algebra` report exactly the laws that hold, and the shipped semiring
+//! applications (`lattices::semiring_application`) satisfy the semiring laws.
+//!
+//! E: the `Result` of every public checker on operation tables over carriers 0..n (all tables for n <= 3).
+//! O: the law each checker's doc comment names, evaluated by brute force from the textbook definition
+//!    (core.rs `oracle`, lin.rs), never looking at how algebra.rs composes its checks:
+//!
+//! | checker | documented law (all tuples of `items`) |
+//! |---|---|
+//! | associativity, semigroup | (ab)c = a(bc) |
+//! | commutativity / idempotency | xy = yx / xx = x |
+//! | identity(e) | ea = a and ae = a |
+//! | absorbing_element(z) | az = z and za = z |
+//! | inverse(e,b) / nonzero_inverse(e,zero,b) | a b(a) = e and b(a) a = e (for a != zero) |
+//! | no_nonzero_zero_divisors(zero) | a,b != zero => ab != zero |
+//! | monoid / commutative_monoid | associative + identity (+ commutative) |
+//! | group / abelian_group | monoid + inverse (+ commutative) |
+//! | left_/right_distributes, distributive | a(b+c) = ab+ac / (b+c)a = ba+ca / both |
+//! | semiring | (+,zero) commutative monoid, (x,one) monoid, zero absorbing for x, x distributes over + |
+//! | ring / commutative_ring | semiring + additive inverse (+ x commutative) |
+//! | integral_domain | "nonzero commutative ring with no nonzero zero divisors" |
+//! | field | commutative ring + inverses of the nonzero elements; docs silent on 0 != 1 => either answer accepted on the zero ring |
+//! | linearity | q(f(a,b)) = g(q(a),q(b)) |
+//! | bilinearity | q(f(a,b),c) = g(q(a,c),q(b,c)) and q(a,h(c,d)) = g(q(a,c),q(a,d)) |
+//! | get_single_function_properties | lists exactly those of the six single-operation laws that hold |
+
+mod apps;
+mod core;
+mod fams;
+mod fams2;
+mod lib_ops;
+mod lin;
+
+use std::sync::atomic::{AtomicU64, Ordering};
+
+use vcommon::{Args, Reporter, Tier, json};
+
+use crate::core::*;
+
+static PANICS: AtomicU64 = AtomicU64::new(0);
+
+fn replay(rep: &mut Reporter, case: &vcommon::Value) {
+    let fam = case["family"].as_str().unwrap_or("replay").to_string();
+    match case["kind"].as_str().expect("kind") {
+        "array" => {
+            let mut tally: Tally = [[0; 4]; NCK];
+            let c = Case::from_json(case);
+            let v = judge(rep, &mut tally, &c, &fam);
+            rep.extra("replay_oracle", json!({"expect": format!("{:?}", v.expect), "failing": v.fails, "first_failing_component": v.first}));
+            rep.extra("replay_checker_result", json!(format!("{:?}", call(&c))));
+        }
+        "linearity" => {
+            let mut t = lin::LinTally::default();
+            let fails = lin::judge_lin(rep, &mut t, &lin::LinCase::from_json(case), &fam);
+            rep.extra("replay_oracle", json!({"failing_pairs": fails}));
+        }
+        "bilinearity" => {
+            let mut t = lin::LinTally::default();
+            let fails = lin::judge_bil(rep, &mut t, &lin::BilCase::from_json(case), &fam);
+            rep.extra("replay_oracle", json!({"failing_triples": fails}));
+        }
+        "single_function_properties" => {
+            let mut t = lin::LinTally::default();
+            lin::judge_sfp(rep, &mut t, &lin::SfpCase::from_json(case), &fam);
+        }
+        "app" => apps::replay_app(rep, case),
+        k => panic!("unknown replay kind {k}"),
+    }
+}
+
 fn main() {
-    let args = vcommon::Args::parse();
+    let args = Args::parse();
     if args.prop == "NONE" {
         return;
     }
-    eprintln!("not implemented yet");
-    std::process::exit(3);
+    if args.prop != "C09" {
+        eprintln!("mon_algebra serves C09 only");
+        std::process::exit(3);
+    }
+    // panics of the code under test are observations (caught per call); keep the log short
+    let default_hook = std::panic::take_hook();
+    std::panic::set_hook(Box::new(move |info| {
+        if PANICS.fetch_add(1, Ordering::Relaxed) < 5 {
+            default_hook(info);
+        }
+    }));
+    let mut rep = Reporter::new("C09", args.seed);
+    rep.set_sample_cap(8);
+    if let Some(case) = args.replay_case() {
+        replay(&mut rep, &case);
+        rep.finish("replay", false);
+        return;
+    }
+    let mut rng = args.rng();
+    let miri = args.tier == Tier::Miri;
+    let cl = fams::classify3();
+    rep.extra("tables_on_3_elements", json!({"all": cl.all.len(), "associative": cl.assoc.len(), "monoids": cl.mon.len(), "commutative_monoids": cl.cm.len()}));
+
+    // ---- array-based checkers
+    let tally = {
+        let mut cx = fams::Ctx { rep: &mut rep, tally: [[0; 4]; NCK], args: &args };
+        for n in 1..=3 {
+            fams::fam_single(&mut cx, n);
+        }
+        for n in 1..=2 {
+            fams::fam_pairs_small(&mut cx, n);
+        }
+        fams::fam_pairs3(&mut cx, &cl, &mut rng.fork(1));
+        if args.tier == Tier::Thorough {
+            fams::fam_dist3_all_pairs(&mut cx, &cl);
+        }
+        fams::fam_large(&mut cx, &mut rng.fork(2));
+        fams::fam_items(&mut cx, &cl, &mut rng.fork(3));
+        cx.tally
+    };
+    // ---- slice-based checkers
+    let lt = {
+        let mut cx = fams2::Cx2 { rep: &mut rep, t: lin::LinTally::default(), args: &args };
+        fams2::fam_linearity(&mut cx, &cl, &mut rng.fork(4));
+        fams2::fam_bilinearity(&mut cx, &mut rng.fork(5));
+        fams2::fam_sfp(&mut cx, &mut rng.fork(6));
+        cx.t
+    };
+    // ---- semiring applications
+    apps::run_apps(&mut rep, &args);
+
+    // ---- coverage
+    let mut cov = serde_json_map();
+    for ck in ALL_CK {
+        let t = tally[ck as usize];
+        cov.insert(ck.name().to_string(), json!({"law_holds": t[0], "law_fails": t[1], "either_accepted": t[2], "near_miss_1_or_2_failing_tuples": t[3]}));
+        rep.require(miri || (t[0] >= 20 && t[1] >= 20), &format!("{}: fewer than 20 law-holding or 20 law-failing cases judged", ck.name()));
+        rep.require(miri || t[3] >= 10, &format!("{}: fewer than 10 near-miss cases (1-2 failing tuples) judged", ck.name()));
+    }
+    cov.insert("linearity".into(), json!({"law_holds": lt.lin[0], "law_fails": lt.lin[1], "near_miss": lt.lin[2], "law_holds_with_noncommutative_g": lt.lin[3], "law_holds_noncommutative_g_between_groups": lt.lin_ok_groups_noncomm}));
+    cov.insert("bilinearity".into(), json!({"law_holds": lt.bil[0], "law_fails": lt.bil[1], "near_miss": lt.bil[2], "law_holds_with_noncommutative_g": lt.bil[3]}));
+    cov.insert("get_single_function_properties".into(), json!({"calls": lt.sfp, "cases_per_law_holding": lt.sfp_laws_reported}));
+    rep.extra("coverage_per_checker", vcommon::Value::Object(cov));
+    rep.extra("panics_observed", json!(PANICS.load(Ordering::Relaxed)));
+    rep.require(miri || (lt.lin[0] >= 1000 && lt.lin[1] >= 1000 && lt.lin[2] >= 100), "linearity: too few law-holding / law-failing / near-miss cases");
+    rep.require(miri || lt.lin[3] >= 100, "linearity: fewer than 100 law-holding cases whose g is non-commutative on the image of q");
+    rep.require(miri || lt.lin_ok_groups_noncomm >= 5, "linearity: fewer than 5 homomorphisms into a non-abelian group");
+    rep.require(miri || (lt.bil[0] >= 1000 && lt.bil[1] >= 1000 && lt.bil[2] >= 100 && lt.bil[3] >= 100), "bilinearity: too few law-holding / law-failing / near-miss / non-commutative-g cases");
+    rep.require(miri || lt.sfp_laws_reported.iter().all(|&k| k >= 20), "get_single_function_properties: some law held in fewer than 20 cases");
+    for app in ["BinaryTrust", "Multiplicity", "Cost", "ConfidenceScore", "FuzzyLogic"] {
+        for law in ["add-associative", "mul-associative", "left-distributive", "right-distributive", "add-commutative", "zero-is-additive-identity", "one-is-multiplicative-identity", "zero-absorbs-mul"] {
+            rep.require(rep.counter(&format!("app.{app}.{law}")) >= 8, &format!("semiring application {app}: law {law} judged on fewer than 8 tuples"));
+        }
+    }
+    let exhaustive = !miri;
+    rep.finish(
+        "Operation tables over carriers 0..n. Exhaustive: every table for n<=3 with every identity/absorbing/zero candidate and every inverse map (single-operation checkers); every pair of tables for n<=2 with every zero/one and every pair of inverse maps (two-operation checkers); for n=3 every table x every monoid/projection/constant table and every commutative monoid x every table (distributivity; thorough tier: all 19683^2 ordered pairs), every commutative monoid x every monoid x every zero/one x every inverse map (semiring..field), every single-cell change of every semiring on 3 elements; linearity: every (f,g,q) for carrier sizes {1,2,3}^2 except 3x3, for 3x3 every f x 12 well-known g (thorough: x every associative g) x every q; bilinearity: every (f,h,g,q) for sizes <=2, every q for sampled well-known (f,h,g) of size <=3 plus every single-cell change of the bilinear ones. Sampled: random pairs/triples on 3 elements; carriers of size 4-6 built from Z_n, GF(4), S3, lattices, tropical, projections, renamed by random permutations with 0-2 random cell changes and perturbed parameters; permuted/duplicated/sub-carrier item lists. Semiring applications: all triples over bool, 34 (thorough 110) multiplicities <= 2^10, costs <= 2^20 plus Infinity, dyadic k/4 (thorough k/16) confidence and fuzzy values. A case is non-trivial when the oracle finds the law holding or failing on at most 2 tuples (for get_single_function_properties: at least two laws hold; for the applications: three pairwise different values).",
+        exhaustive,
+    );
+}
+
+fn serde_json_map() -> vcommon::serde_json::Map<String, vcommon::Value> {
+    vcommon::serde_json::Map::new()
 }
